@@ -347,7 +347,7 @@ class Tree:
                             await env.gate(f"svc:{label}:handshake")
                             task_status.started()
                             env.log("svc-up", label)
-                            await anyio.Event().wait()
+                            # (a factory's tasks are waited for, not cancelled, when the context is torn down: this one ends by itself)
                         except BaseException as e:
                             env.log("svc!", label, type(e).__name__)
                             raise
